@@ -1339,7 +1339,8 @@ where
                         )
                         .await?;
 
-                        if !server.in_transaction() {
+                        // (a COPY that has just started is not a finished transaction)
+                        if !server.in_transaction() && !server.in_copy_mode() {
                             // Report transaction executed statistics.
                             self.stats.transaction();
                             server
@@ -1348,7 +1349,7 @@ where
 
                             // Release server back to the pool if we are in transaction mode.
                             // If we are in session mode, we keep the server until the client disconnects.
-                            if self.transaction_mode && !server.in_copy_mode() {
+                            if self.transaction_mode {
                                 self.stats.idle();
 
                                 break;
